@@ -2,7 +2,8 @@
 // Labelled "bounded", never counted as proved. For 2000 wall-clock seconds spread over the years 2024-2035 it checks
 // every instant within 3 microseconds of the whole second (1 ns steps) and 1000 evenly spaced instants inside the
 // second: ToNTP is monotone non-decreasing over the sorted instants, ToTime(ToNTP(t)) is within one microsecond of t,
-// and the 32-bit middle form round-trips to within 1/65536 s given the instant itself as reference.
+// and the 32-bit middle form round-trips to within 1/65536 s given the instant itself or the start, middle or end of
+// its 65536-second window as reference.
 package ntp
 
 import (
@@ -39,6 +40,18 @@ func TestBoundedNTP(t *testing.T) {
 			}
 
 			return true
+		}
+		// the 32-bit middle form with references elsewhere in the same 65536-second NTP window
+		{
+			secs := uint64(sec.Unix()) + 2208988800
+			winStart := sec.Add(-time.Duration(secs%65536) * time.Second)
+			for _, ref := range []time.Time{winStart, winStart.Add(32767 * time.Second), winStart.Add(32768 * time.Second), winStart.Add(65535 * time.Second)} {
+				count++
+				back32 := ToTime32(ToNTP32(sec), ref)
+				if d := back32.Sub(sec); d > time.Second/65536+time.Microsecond || d < -(time.Second/65536+time.Microsecond) {
+					return fail("instant=%s reference=%s: 32-bit round trip is off by %v", sec.Format(time.RFC3339Nano), ref.Format(time.RFC3339Nano), d)
+				}
+			}
 		}
 		// just before the second, the second itself, just after (1 ns steps)
 		for off := -3000; off <= 3000; off++ {
